@@ -29,7 +29,7 @@ pub static SPEC: PropSpec = PropSpec {
     case_cpu_s: 120,
     shards: 0,
     run,
-    floors: &[("renamed_programs_agree", 80, 2_000), ("name_set_programs_agree", 60, 4_000), ("type_name_pairs_covered", 600, 861), ("cross_package_projects_ok", 16, 16)],
+    floors: &[("renamed_programs_agree", 80, 2_000), ("name_set_programs_agree", 60, 4_000), ("type_name_pairs_covered", 600, 861), ("cross_package_projects_ok", 16, 16), ("regrouped_instantiations_ok", 6, 6)],
     finish: None,
 };
 
@@ -426,6 +426,42 @@ fn run(ctx: &mut Ctx) {
                             format!("{} prints {:?} ({:?} {}), expected {:?}", label, out, term, util::truncate(&stderr, 80), expected),
                             json!({"label": label, "files": files.iter().map(|(p, t)| json!({"path": p.display().to_string(), "text": t})).collect::<Vec<_>>(), "stdout": out}),
                         );
+                    }
+                }
+            });
+        }
+    }
+    // one generic function instantiated at two types whose flattened spellings coincide (the same leaves in the same
+    // order, grouped differently): each instantiation needs its own Go function
+    {
+        let pairs: [(&str, &str, &str, &str, &str, &str); 6] = [
+            ("nested-left-3-1", "((int32, int32), int32, int32)", "((1, 2), 3, 4)", "((int32, int32, int32), int32)", "((5, 6, 7), 8)", ""),
+            ("nested-left-right", "(int32, (int32, int32))", "(1, (2, 3))", "((int32, int32), int32)", "((4, 5), 6)", ""),
+            ("array-of-array", "[[int32; 2]; 3]", "[[1, 2], [3, 4], [5, 6]]", "[[int32; 3]; 2]", "[[1, 2, 3], [4, 5, 6]]", ""),
+            ("vec-in-tuple", "Vec[(int32, int32)]", "vec_push(vec_new(), (1, 2))", "(Vec[int32], int32)", "(vec_push(vec_new(), 1), 2)", ""),
+            ("ref-in-tuple", "Ref[(int32, bool)]", "ref((1, true))", "(Ref[int32], bool)", "(ref(1), true)", ""),
+            ("struct-vs-tuple-of-fields", "(Pt, int32)", "(Pt { x: 1, y: 2 }, 3)", "(Pt, (int32))", "(Pt { x: 4, y: 5 }, (6,))", "struct Pt { x: int32, y: int32 }\n"),
+        ];
+        for (i, (name, t1, v1, t2, v2, decls)) in pairs.iter().enumerate() {
+            if !ctx.mine(42_000 + i as u64) {
+                continue;
+            }
+            let src = format!(
+                "{decls}fn keep[T](x: T, tag: int32) -> (T, int32) {{ (x, tag) }}\nfn first(a: {t1}) -> int32 {{ 1 }}\nfn second(b: {t2}) -> int32 {{ 2 }}\nfn main() -> unit {{\n    let a: {t1} = {v1};\n    let b: {t2} = {v2};\n    let (ka, ta) = keep(a, 10);\n    let (kb, tb) = keep(b, 20);\n    let _ = string_println(int32_to_string(first(ka) + ta) + \" \" + int32_to_string(second(kb) + tb));\n    ()\n}}\n",
+                decls = decls,
+                t1 = t1,
+                v1 = v1,
+                t2 = t2,
+                v2 = v2
+            );
+            let label = format!("same-leaves-other-grouping/{}", name);
+            ctx.case(&label.clone(), |c| {
+                if let Some((out, term, stderr)) = crate::exec::run_source(c, "C19", &label, &src, 1_000_000) {
+                    if out == "11 22\n" && matches!(term, crate::goexec::Term::Ok) {
+                        c.count("regrouped_instantiations_ok", 1);
+                        c.nontrivial(hash_str(&src));
+                    } else {
+                        c.violation(format!("C19:regrouped-instantiations-print-other-values:{}", name), format!("{} prints {:?} ({:?} {})", label, out, term, util::truncate(&stderr, 80)), json!({"label": label, "source": src, "stdout": out}));
                     }
                 }
             });
